@@ -304,7 +304,9 @@ func EnumCase(r *rand.Rand, name string, o EnumOpts) (*Case, string) {
 	c.Feature("action", action)
 	c.Feature("format", o.Format)
 	c.Feature("samepkg", fmt.Sprint(samePkg))
-	c.AllowImports = []string{"fmt"}
+	if strings.HasPrefix(unknown, "@error") || strings.HasPrefix(unknown, "@panic") || action == "@error" || action == "@panic" {
+		c.AllowImports = []string{"fmt"}
+	}
 	c.Note = strings.Join(methLines, "; ")
 	return c, mustFail
 }
